@@ -15,3 +15,11 @@ for name, src, out in [("scales", "scales.py", "Scales.v")]:
 import readsig  # noqa: E402
 readsig.main(os.path.join(C.SRC, "util.py"), os.path.join(C.SRC, "config.py"), os.path.join(C.COQ, "gen", "ReadSignal.v"))
 print("generated", "ReadSignal.v")
+# C15: post.py (Deltas / Stack integer bookkeeping) -> PostC15.v
+import post_c15  # noqa: E402
+post_c15.main(os.path.join(C.SRC, "post.py"), os.path.join(C.COQ, "gen", "PostC15.v"))
+print("generated", "PostC15.v")
+# C10: command_line.py (shape of signals_to_torch_feat_dir) -> C10Tool.v
+import c10tool  # noqa: E402
+c10tool.main(os.path.join(C.SRC, "command_line.py"), os.path.join(C.COQ, "gen", "C10Tool.v"))
+print("generated", "C10Tool.v")
